@@ -67,6 +67,12 @@ func (core JApiCore) addJSight(d *directive.Directive) *jerr.JApiError {
 	return nil
 }
 
+// addTags checks a Tags directive where it stands: the tags of a URL are read
+// by the methods that inherit them, and no method may do so.
+func (core JApiCore) addTags(d *directive.Directive) *jerr.JApiError {
+	return core.catalog.CheckTags(d)
+}
+
 func (core JApiCore) addInfo(d *directive.Directive) *jerr.JApiError {
 	if d.HasNamedParameter() {
 		return d.KeywordError(jerr.ParametersAreForbiddenForTheDirective)
